@@ -68,6 +68,14 @@ func run(c *mon.Ctx) {
 		runSock(c)
 		c.Set("sock_wall_s", time.Since(t).Seconds())
 	}
+	if only == "" || only == "conc" {
+		// the same invariant in the normal build, without hook: the tightest timing (10^5 / 10^6 rounds)
+		t := time.Now()
+		rounds := int(scaled(int64(c.Pick(100000, 1000000))))
+		pingPong(c, 1, rounds, false)
+		pingPong(c, 2, rounds/4, false)
+		c.Set("pingpong_wall_s", time.Since(t).Seconds())
+	}
 	if only == "" || only == "seq" {
 		t := time.Now()
 		runSeq(c)
@@ -335,6 +343,12 @@ func replay(c *mon.Ctx) {
 			p, res := runConcHistory(det.Seed, det.Index)
 			concFold(c, det.Index, p, res)
 		}
+	case "pingpong":
+		var det pingPongDetail
+		if err := c.ReplayDetail(&det); err != nil {
+			c.Fatal("replay: %v", err)
+		}
+		pingPong(c, det.N, det.Rounds, false)
 	case "sock":
 		var det sockDetail
 		if err := c.ReplayDetail(&det); err != nil {
